@@ -336,7 +336,9 @@ func c17Run(res *vh.Result, ci int, rng *vh.Rng) {
 		}
 		seq = s.NextSeq()
 		zero := uint64(0)
-		ies := append([]*vh.IE{vh.NodeIDv4(s.IP), vh.FSEIDv4(0x900, s.IP)}, rules(false)...)
+		// in half of the cases the stable sessions carry a periodic URR too, so that one tick makes the periodic
+		// server hand several sessions' reports to the loop back to back
+		ies := append([]*vh.IE{vh.NodeIDv4(s.IP), vh.FSEIDv4(0x900, s.IP)}, rules(c.RetransMs%2 == 0)...)
 		dg := doReq(s, vh.BuildMsg(vh.MEstReq, &zero, seq, ies...), seq, false)
 		if dg == nil || dg.M == nil || dg.M.Find(vh.TFSEID) == nil {
 			res.Inconc("stable establishment unanswered")
@@ -586,6 +588,49 @@ func c17Run(res *vh.Result, ci int, rng *vh.Rng) {
 	}
 	for _, f := range vh.TakeFatals() {
 		viol(vh.FaultSig(f), "fatal error under concurrent load / stop (mode "+c.Mode+")", f)
+	}
+	// kernel-issued reports (the answers to periodic queries; serials below the harness range): whatever of them
+	// arrived, arrived in one distinct Session Report Request, and those of a stable session at its own SMF.
+	// (The hand-over of periodic reports goes through a mutex-guarded queue, which orders accesses for the race
+	// detector that the program itself does not order: sharing between two notifications shows here instead.)
+	mu.Lock()
+	kseen, kdups, kmis := 0, 0, 0
+	var kEx []string
+	for sn, l := range seen {
+		if sn >= 10000000 {
+			continue
+		}
+		rep := k.Lookup(sn)
+		if rep == nil {
+			continue
+		}
+		kseen++
+		bad := len(l) > 1
+		if bad {
+			kdups++
+		}
+		for j, up := range stable {
+			if rep.Key.SEID != up {
+				continue
+			}
+			for _, x := range l {
+				if x.smf != j {
+					kmis++
+					bad = true
+				}
+			}
+		}
+		if bad && len(kEx) < 5 {
+			kEx = append(kEx, fmt.Sprintf("kernel report %d (%s of URR %d, SEID %#x): %+v", sn, rep.Origin, rep.Key.ID, rep.Key.SEID, l))
+		}
+	}
+	mu.Unlock()
+	res.Count("periodic_reports_seen", int64(kseen))
+	if kdups > 0 {
+		viol("periodic-report-duplicated", fmt.Sprintf("%d kernel-issued usage reports were forwarded in more than one distinct Session Report Request", kdups), kEx)
+	}
+	if kmis > 0 {
+		viol("periodic-report-misrouted", fmt.Sprintf("%d kernel-issued usage reports of untouched sessions reached another SMF than the owner", kmis), kEx)
 	}
 	res.Count("events_injected", atomic.LoadInt64(&injected))
 	res.Count("driver_calls", tap.NCalls)
